@@ -445,7 +445,7 @@ func Decorate(r *rand.Rand, src []byte, template bool) []byte {
 				list = append(list, ins{t.lo + 1, pick(r, []string{"é", "日本", "€", "ß"})})
 			}
 		case tkComment:
-			list = append(list, ins{t.lo + 2, pick(r, []string{"é", "日本", " ü\n ", "\t"})})
+			list = append(list, ins{min(t.lo+2, t.hi), pick(r, []string{"é", "日本", " ü\n ", "\t"})})
 		case tkSpace:
 			list = append(list, ins{t.lo, pick(r, []string{"\t", "/*é*/", "/* 日\n本 */", " ", "\r\n", "/**/"})})
 		default:
@@ -462,7 +462,8 @@ func Decorate(r *rand.Rand, src []byte, template bool) []byte {
 		}
 	}
 	for _, x := range list {
-		out = splice(out, x.at, x.at, []byte(x.s))
+		at := min(x.at, len(out))
+		out = splice(out, at, at, []byte(x.s))
 	}
 	return out
 }
